@@ -18,6 +18,7 @@ import (
 	"sort"
 	"strconv"
 	"strings"
+	"time"
 
 	"github.com/kaptinlin/gozod"
 	"github.com/kaptinlin/gozod/core"
@@ -437,35 +438,49 @@ func pick2(obs string) string {
 // ---------- (B) other schema types ----------
 
 type gentry struct {
-	name string
-	mk   func() any
-	ins  []any
-	dflt any
+	name  string
+	mk    func() any // with the type's own checks
+	plain func() any // the bare constructor (no checks of its own)
+	ins   []any
+	dflt  any
 }
 
 func gentries() []gentry {
+	strMin3 := func() *gozod.ZodString[string] { return gozod.String().Min(3) }
 	return []gentry{
-		{"int", func() any { return gozod.Int().Min(10) }, []any{50, 5}, 42},
-		{"int8ptr", func() any { return gozod.Int8Ptr().Min(10) }, []any{int8(50), int8(5)}, int8(42)},
-		{"uint32", func() any { return gozod.Uint32().Max(100) }, []any{uint32(50), uint32(500)}, uint32(42)},
-		{"float64", func() any { return gozod.Float64().Min(10) }, []any{50.5, 5.5}, 42.5},
-		{"bool", func() any { return gozod.Bool() }, []any{true, false}, true},
-		{"enum", func() any { return gozod.Enum("a", "b", "c") }, []any{"a", "z"}, "b"},
-		{"literal", func() any { return gozod.Literal("lit") }, []any{"lit", "z"}, "lit"},
-		{"slice", func() any { return gozod.Slice[int](gozod.Int().Min(10)).Min(2) }, []any{[]int{11, 12, 13}, []int{11}, []int{1, 2, 3}}, []int{20, 21}},
-		{"array", func() any { return gozod.Array(gozod.Int().Min(10), gozod.String()) }, []any{[]any{11, "x"}, []any{1, "x"}, []any{11}}, []any{20, "d"}},
+		{"int", func() any { return gozod.Int().Min(10) }, func() any { return gozod.Int() }, []any{50, 5}, 42},
+		{"int8ptr", func() any { return gozod.Int8Ptr().Min(10) }, func() any { return gozod.Int8Ptr() }, []any{int8(50), int8(5)}, int8(42)},
+		{"uint32", func() any { return gozod.Uint32().Max(100) }, func() any { return gozod.Uint32() }, []any{uint32(50), uint32(500)}, uint32(42)},
+		{"float64", func() any { return gozod.Float64().Min(10) }, func() any { return gozod.Float64() }, []any{50.5, 5.5}, 42.5},
+		{"float32ptr", func() any { return gozod.Float32Ptr().Max(10) }, func() any { return gozod.Float32Ptr() }, []any{float32(50.5), float32(5.5)}, float32(4.5)},
+		{"bool", func() any { return gozod.Bool() }, func() any { return gozod.Bool() }, []any{true, false}, true},
+		{"stringg", func() any { return gozod.String().Min(3) }, func() any { return gozod.String() }, []any{"hello", "x"}, "dflt"},
+		{"time", func() any { return gozod.Time() }, func() any { return gozod.Time() }, []any{time.Unix(1700000000, 0).UTC(), time.Unix(5, 0).UTC()}, time.Unix(1600000000, 0).UTC()},
+		{"enum", func() any { return gozod.Enum("a", "b", "c") }, func() any { return gozod.Enum("a", "b", "c") }, []any{"a", "z"}, "b"},
+		{"literal", func() any { return gozod.Literal("lit") }, func() any { return gozod.Literal("lit") }, []any{"lit", "z"}, "lit"},
+		{"slice", func() any { return gozod.Slice[int](gozod.Int().Min(10)).Min(2) }, func() any { return gozod.Slice[int](gozod.Int().Min(10)) },
+			[]any{[]int{11, 12, 13}, []int{11}, []int{1, 2, 3}}, []int{20, 21}},
+		{"array", func() any { return gozod.Array(gozod.Int().Min(10), gozod.String()) }, func() any { return gozod.Array(gozod.Int().Min(10), gozod.String()) },
+			[]any{[]any{11, "x"}, []any{1, "x"}, []any{11}}, []any{20, "d"}},
 		{"object", func() any {
+			return gozod.Object(core.ObjectSchema{"a": gozod.Int().Min(10), "b": gozod.String().Optional()}).Min(1)
+		}, func() any {
 			return gozod.Object(core.ObjectSchema{"a": gozod.Int().Min(10), "b": gozod.String().Optional()})
 		},
 			[]any{map[string]any{"a": 50}, map[string]any{"a": 5}, map[string]any{"a": 50, "zz": 1}, map[string]any{}}, map[string]any{"a": 42}},
-		{"strictobject", func() any { return gozod.StrictObject(core.ObjectSchema{"a": gozod.Int().Min(10)}) },
+		{"strictobject", func() any { return gozod.StrictObject(core.ObjectSchema{"a": gozod.Int().Min(10)}) }, func() any { return gozod.StrictObject(core.ObjectSchema{"a": gozod.Int().Min(10)}) },
 			[]any{map[string]any{"a": 50}, map[string]any{"a": 50, "zz": 1}}, map[string]any{"a": 42}},
-		{"record", func() any { return gozod.Record[string, int](gozod.String(), gozod.Int().Min(10)) }, []any{map[string]int{"k": 50}, map[string]int{"k": 5}}, map[string]int{"d": 42}},
-		{"map", func() any { return gozod.Map(gozod.String(), gozod.Int().Min(10)) }, []any{map[any]any{"k": 50}, map[any]any{"k": 5}}, map[any]any{"d": 42}},
-		{"union", func() any { return gozod.Union([]any{gozod.String().Min(3), gozod.Int().Min(10)}) }, []any{"hello", "x", 50, 5, true}, "dflt"},
-		{"intersection", func() any { return gozod.Intersection(gozod.String().Min(3), gozod.String().Max(8)) }, []any{"hello", "x", "waytoolongstring"}, "dflt"},
-		{"any", func() any { return gozod.Any() }, []any{"x", 1}, "d"},
-		{"lazy", func() any { return gozod.Lazy(func() *gozod.ZodString[string] { return gozod.String().Min(3) }) }, []any{"hello", "x"}, "dflt"},
+		{"record", func() any { return gozod.Record[string, int](gozod.String(), gozod.Int().Min(10)) }, func() any { return gozod.Record[string, int](gozod.String(), gozod.Int().Min(10)) },
+			[]any{map[string]int{"k": 50}, map[string]int{"k": 5}}, map[string]int{"d": 42}},
+		{"map", func() any { return gozod.Map(gozod.String(), gozod.Int().Min(10)).Min(1) }, func() any { return gozod.Map(gozod.String(), gozod.Int().Min(10)) },
+			[]any{map[any]any{"k": 50}, map[any]any{"k": 5}, map[any]any{}}, map[any]any{"d": 42}},
+		{"union", func() any { return gozod.Union([]any{gozod.String().Min(3), gozod.Int().Min(10)}) }, func() any { return gozod.Union([]any{gozod.String().Min(3), gozod.Int().Min(10)}) },
+			[]any{"hello", "x", 50, 5, true}, "dflt"},
+		{"intersection", func() any { return gozod.Intersection(gozod.String().Min(3), gozod.String().Max(8)) }, func() any { return gozod.Intersection(gozod.String().Min(3), gozod.String().Max(8)) },
+			[]any{"hello", "x", "waytoolongstring"}, "dflt"},
+		{"any", func() any { return gozod.Any() }, func() any { return gozod.Any() }, []any{"x", 1}, "d"},
+		{"unknown", func() any { return gozod.Unknown() }, func() any { return gozod.Unknown() }, []any{"x", 1}, "d"},
+		{"lazy", func() any { return gozod.Lazy(strMin3) }, func() any { return gozod.Lazy(strMin3) }, []any{"hello", "x"}, "dflt"},
 	}
 }
 
@@ -532,9 +547,10 @@ func runGen(o *hx.Out, r *hx.Rng, rounds int) {
 	for round := 0; round < rounds; round++ {
 		for _, e := range es {
 			var schema any
-			var applied []string
+			variant := hx.Pick(r, []string{"checked", "checked", "plain", "refined"})
+			applied := []string{variant}
 			pm := hx.Safely(func() {
-				schema = e.mk()
+				schema = buildVariant(&e, variant)
 				for j, m := 0, r.Intn(4); j < m; j++ {
 					name := hx.Pick(r, mods)
 					meth := reflect.ValueOf(schema).MethodByName(name)
@@ -607,8 +623,14 @@ func main() {
 	if c.Thorough() {
 		nStr, rounds = 300000, 4000
 	}
+	nHistStr, histRounds := 2500, 220
+	if c.Thorough() {
+		nHistStr, histRounds = 60000, 5000
+	}
 	runStr(o, r, nStr)
 	runGen(o, r, rounds)
+	runHistStr(o, r, nHistStr)
+	runHistGen(o, r, histRounds)
 	if err := o.Close(map[string]any{"seed": c.Seed, "tier": c.Tier}); err != nil {
 		fmt.Fprintln(os.Stderr, err)
 		os.Exit(3)
